@@ -1,6 +1,6 @@
 #!/bin/bash
 # Replays every recorded finding (findings/<id>/*.json) against the current tree without the explorer.
-# Fixed findings must no longer reproduce; the open C03 finding must still reproduce.  exit 0 iff that is so.
+# Every recorded finding is fixed by now (known_findings.json): none may reproduce.  exit 0 iff that is so.
 cd "$(dirname "$0")/.." || exit 2
 rc=0
 for f in findings/*/*.json; do
@@ -8,9 +8,6 @@ for f in findings/*/*.json; do
   out=$(./check "$id" --replay "$f" --json 2>/dev/null | grep '^{' | tail -1)
   sigs=$(echo "$out" | python3 -c "import json,sys; print(len(json.load(sys.stdin)['signatures']))" 2>/dev/null || echo "?")
   want_sig=$(python3 -c "import json; print(json.load(open('$f'))['signature'])")
-  case "$want_sig" in
-    */zero-dur-at-close-and-open-instant/*) if [ "$sigs" = "0" ] || [ "$sigs" = "?" ]; then echo "UNEXPECTED (known finding no longer reproduces) $f"; rc=1; else echo "known-finding reproduces  $f"; fi;;
-    *) if [ "$sigs" = "0" ]; then echo "fixed, does not reproduce  $f"; else echo "REPRODUCES ($sigs signatures) $f :: $want_sig"; rc=1; fi;;
-  esac
+  if [ "$sigs" = "0" ]; then echo "fixed, does not reproduce  $f"; else echo "REPRODUCES ($sigs signatures) $f :: $want_sig"; rc=1; fi
 done
 exit $rc
